@@ -64,7 +64,7 @@ Qed.
 Lemma l2_key_of_env e0 : env_ok e0 -> covers (env_of e0) l1 l2 ->
   compute_l2_key c h l1 l2 e0 = derived_seed h rk rkid sd l0 l1 l2.
 Proof.
-  intros [_ E0 Er _ _ Hc _] Hcov.
+  intros [_ E0 Er _ _ Hc _ _ _] Hcov.
   pose proof (model_chain c h (root_top c h rk rkid sd l0) e0 l1 l2) as M. rewrite E0, Er in M.
   exact (M Hc Hl1 Hl2 Hcov).
 Qed.
@@ -83,7 +83,7 @@ Proof.
   intros H0 H' Hcov Hs Hn kid.
   pose proof (agree_nonce c h (root_top c h rk rkid sd l0) (prot_env e0 rkid l0 l1 l2 seed) e' (fun _ => rnd) seed
                 (prot_env_hash e0 seed H0) (env_ok_hash c h rk rkid sd l0 Hhash e' H')) as A.
-  destruct H0 as [Hp0 _ _ _ _ _ _]. destruct H' as [Hp' El' Er' _ _ Hc' _].
+  destruct H0 as [Hp0 _ _ _ _ _ _ _ _]. destruct H' as [Hp' El' Er' _ _ Hc' _ _ _].
   specialize (A Hp0 Hp' El' Er' Hl1 Hl2 Hc' Hcov Hs (or_introl (conj eq_refl Hn))).
   destruct A as (kid' & En & Ek & Eg). cbv beta in *.
   pose proof (new_kek_kid _ _ _ _ _ En) as Ekid. rewrite Ek in Ekid. cbn [prot_env gke_flags gke_l0 gke_l1 gke_l2 gke_rkid gke_domain gke_forest] in Ekid.
@@ -101,7 +101,7 @@ Proof.
   intros Hc Hi. destruct (get_key_ok c h rk rkid sd l0 Hhash Halg Hl0 cache l1 l2 Hc Hl1 Hl2) as (e0 & cache1 & Eg & H0 & Hcov & Ef & Hc1).
   destruct derived_seed_ok as (seed & Es & Hn). exists e0, cache1, seed.
   split; [|auto 8]. unfold protection_gke_from_cache. rewrite Hi. cbv beta iota. rewrite Eg. cbn [bind].
-  pose proof (l2_key_of_env e0 H0 Hcov) as El2. destruct H0 as [_ _ _ _ Ep _ _]. rewrite Ep.
+  pose proof (l2_key_of_env e0 H0 Hcov) as El2. destruct H0 as [_ _ _ _ Ep _ _ _ _]. rewrite Ep.
   unfold rk_hash in Hhash. destruct (KDFParameters_unpack (rk_kdf_params rk)) as [hn|]; [|discriminate]. cbn [bind] in *.
   rewrite Hhash. cbn [bind]. rewrite El2, Es. cbn [bind]. rewrite <- Ep. reflexivity.
 Qed.
@@ -187,7 +187,7 @@ Proof.
   destruct (gcm_params_roundtrip r2 ltac:(lia)) as (p & Ep & Hpn & Hlp & Eiv).
   exists e0, cache1, seed, p. repeat (split; [assumption|]).
   unfold protect_offline. rewrite target_sd_ok, Eg.
-  assert (Epk : gke_is_public_key (prot_env e0 rkid l0 l1 l2 seed) = false) by (destruct He0 as [Hp _ _ _ _ _ _]; exact Hp).
+  assert (Epk : gke_is_public_key (prot_env e0 rkid l0 l1 l2 seed) = false) by (destruct He0 as [Hp _ _ _ _ _ _ _ _]; exact Hp).
   rewrite Epk.
   rewrite (store_key_noop rkid sd l0 cache1 (prot_env e0 rkid l0 l1 l2 seed) e0 eq_refl eq_refl Ef Hcov).
   rewrite (encrypt_blob_eq h rk rkid sd l0 l1 l2 e0 seed r1 r2 r3 data sid p Hhash H1 H2 He0 Hcov Es Hn Ep Eiv). reflexivity.
@@ -241,7 +241,7 @@ Proof.
   destruct (kw_wrap c (kek_nonce c h seed r3) r1) as [w|] eqn:Ew; [|discriminate Hp]. cbn [bind] in Hp.
   set (b := emitted_blob (emitted_kid (gke_flags e0) l0 l1 l2 rkid r3 (gke_domain e0) (gke_forest e0)) sid w ct p) in *.
   assert (Hwf : wf_blob b = true).
-  { destruct He0 as [_ _ _ _ _ _ Hn0]. assert (len w < U32) by (apply (Sw _ _ ltac:(unfold derived_kek; rewrite Es; reflexivity) Ew)). pose proof (Sct _ eq_refl). apply emitted_wf; auto; try lia; unfold U32; lia. }
+  { destruct He0 as [_ _ _ _ _ _ Hn0 _ _]. assert (len w < U32) by (apply (Sw _ _ ltac:(unfold derived_kek; rewrite Es; reflexivity) Ew)). pose proof (Sct _ eq_refl). apply emitted_wf; auto; try lia; unfold U32; lia. }
   destruct (blob_roundtrip b true Hwf) as (ci & Ep1 & Eu1 & _ & _). unfold trailing in Ep1, Eu1. rewrite app_nil_r in Ep1, Eu1.
   destruct (blob_roundtrip b false Hwf) as (ci2 & Ep2 & Eu2 & _ & _).
   assert (blob = ci /\ cache1 = c1) as [-> ->].
@@ -276,7 +276,7 @@ Proof.
   exists e0, seed, w, ct, p. cbv zeta.
   set (b := emitted_blob (emitted_kid (gke_flags e0) l0 l1 l2 rkid r3 (gke_domain e0) (gke_forest e0)) sid w ct p) in *.
   assert (Hwf : wf_blob b = true).
-  { destruct He0 as [_ _ _ _ _ _ Hn0]. assert (len w < U32) by (apply (Sw _ _ ltac:(unfold derived_kek; rewrite Es; reflexivity) Ew)). pose proof (Sct _ eq_refl). apply emitted_wf; auto; try lia; unfold U32; lia. }
+  { destruct He0 as [_ _ _ _ _ _ Hn0 _ _]. assert (len w < U32) by (apply (Sw _ _ ltac:(unfold derived_kek; rewrite Es; reflexivity) Ew)). pose proof (Sct _ eq_refl). apply emitted_wf; auto; try lia; unfold U32; lia. }
   destruct (blob_roundtrip b true Hwf) as (ci & Ep1 & Eu1 & _ & _). unfold trailing in Ep1, Eu1. rewrite app_nil_r in Ep1, Eu1.
   assert (blob = ci /\ cache1 = c1) as [-> ->] by (rewrite Ep1 in Hp; split; congruence).
   destruct (derived_seed_ok h rk rkid sd l0 l1 l2 (conj H0 Hb) H1 H2 Hne) as (seed' & Es' & Hn). rewrite Es in Es'. apply Ok_inj in Es'. subst seed'.
@@ -297,7 +297,7 @@ Proof.
   rewrite Eq, Ect. cbn [bind]. rewrite Ew. cbn [bind].
   set (b := emitted_blob (emitted_kid (gke_flags e0) l0 l1 l2 rkid r3 (gke_domain e0) (gke_forest e0)) sid w ct p) in *.
   assert (Hwf : wf_blob b = true).
-  { destruct He0 as [_ _ _ _ _ _ Hn]. apply emitted_wf; auto; try lia; unfold U32; lia. }
+  { destruct He0 as [_ _ _ _ _ _ Hn _ _]. apply emitted_wf; auto; try lia; unfold U32; lia. }
   destruct (blob_roundtrip b true Hwf) as (ci & Ep1 & _). rewrite Ep1. eauto.
 Qed.
 End Main.
@@ -305,6 +305,139 @@ End Main.
 Lemma cache_ok_fresh h rk rkid sd l0 cache : cc_find_root (cc_roots cache) rkid = Some rk ->
   cc_find_seed (cc_seeds cache) (rkid, sd, l0) = None -> cache_ok c h rk rkid sd l0 cache.
 Proof. intros Hr Hs. split; [exact Hr|]. rewrite Hs. discriminate. Qed.
+
+(* ---- any mode: what is needed of the key pair (kek, kid) new_kek produced for the envelope ep ---- *)
+Section AnyMode.
+Context (h : hash) (rk : root_key) (rkid : bytes) (s : sid) (sid : pystr) (l0 l1 l2 : Z).
+Hypothesis Hhash : rk_hash rk = Ok h.
+Hypothesis Halg : rk_kdf_alg rk = STR_KDF_ALG.
+Hypothesis Hrk : len rkid = 16.
+Hypothesis Hsid : sid_parse sid = Ok s.
+Hypothesis Hsok : sid_okb sid = true.
+Hypothesis Hl0 : 0 <= l0 <= 2147483647.
+Hypothesis Hl1 : 0 <= l1 <= 31.
+Hypothesis Hl2 : 0 <= l2 <= 31.
+Notation sd := (target_sd s).
+Notation cache_ok := (cache_ok c h rk rkid sd l0).
+
+Lemma unprotect_general (L : CryptoLaws c) X bs kid kek r1 r2 data w ct p :
+  cache_ok X -> kid_rkid kid = rkid -> kid_l0 kid = l0 -> kid_l1 kid = l1 -> kid_l2 kid = l2 ->
+  (forall e', env_ok c h rk rkid sd l0 e' -> covers (env_of e') l1 l2 -> get_kek c e' kid = Ok kek) ->
+  kw_wrap c kek r1 = Ok w -> gcm_enc c r1 r2 data = Ok ct -> gcm_iv_of_parameters (Some p) = Ok r2 ->
+  blob_unpack bs = Ok (emitted_blob kid sid w ct p) -> fst (unprotect_offline c X bs) = Ok data.
+Proof.
+  intros Hc Kr K0 K1 K2 Hk Ew Ect Eiv Eu.
+  destruct (get_key_ok c h rk rkid sd l0 Hhash Halg Hl0 X l1 l2 Hc Hl1 Hl2) as (e' & X' & Eg & He' & Hcov & _ & _).
+  unfold unprotect_offline. rewrite Eu. cbn [emitted_blob b_sid b_key_identifier].
+  rewrite (target_sd_ok s sid Hsid), Kr, K0, K1, K2, Eg. cbn [fst].
+  unfold decrypt_blob.
+  cbn [emitted_blob b_key_identifier b_enc_cek_algorithm b_enc_cek_parameters b_enc_cek b_enc_content_algorithm b_enc_content_parameters b_enc_content].
+  rewrite (Hk e' He' Hcov). cbn [bind].
+  unfold cek_decrypt. rewrite oid_eqb_refl. rewrite (kw_roundtrip c L _ _ _ Ew). cbn [bind].
+  unfold content_decrypt. rewrite oid_eqb_refl, Eiv. cbn [bind]. apply (gcm_roundtrip c L _ _ _ _ Ect).
+Qed.
+
+(* ep: the envelope handed to _encrypt_blob (for the public-key modes: the one a domain controller delivered) *)
+Lemma roundtrip_any_mode (L : CryptoLaws c) ep kek kid r1 r2 r3 data blob :
+  gke_l0 ep = l0 -> gke_l1 ep = l1 -> gke_l2 ep = l2 -> gke_rkid ep = rkid ->
+  names_ok (gke_flags ep) (gke_domain ep) (gke_forest ep) = true ->
+  new_kek_rnd c ep r3 = Ok (kek, kid) -> len (kid_key_info kid) < U32 ->
+  (forall e', env_ok c h rk rkid sd l0 e' -> covers (env_of e') l1 l2 -> get_kek c e' kid = Ok kek) ->
+  len r2 = 12 -> (forall w, kw_wrap c kek r1 = Ok w -> len w < U32) -> (forall ct, gcm_enc c r1 r2 data = Ok ct -> len ct < U32) ->
+  encrypt_blob c r1 r2 r3 data ep sid = Ok blob ->
+  (exists blob2, (let* b := blob_unpack blob in blob_pack b false) = Ok blob2) /\
+  forall X, cache_ok X ->
+    fst (unprotect_offline c X blob) = Ok data /\
+    forall blob2, (let* b := blob_unpack blob in blob_pack b false) = Ok blob2 -> fst (unprotect_offline c X blob2) = Ok data.
+Proof.
+  intros E0 E1 E2 Er Hn En Hki Hk Hr2 Sw Sct He.
+  destruct (gcm_params_roundtrip r2 ltac:(lia)) as (p & Ep & Hpn & Hlp & Eiv).
+  pose proof (new_kek_kid _ _ _ _ _ En) as Ekid. rewrite E0, E1, E2, Er in Ekid.
+  fold (emitted_kid (gke_flags ep) l0 l1 l2 rkid (kid_key_info kid) (gke_domain ep) (gke_forest ep)) in Ekid.
+  unfold encrypt_blob in He.
+  assert (Eow : oid_eqb oid_aes256_wrap oid_aes256_wrap = true) by apply oid_eqb_refl.
+  assert (Eog : oid_eqb oid_aes256_gcm oid_aes256_gcm = true) by apply oid_eqb_refl.
+  unfold cek_generate in He. rewrite Eow in He. cbn [bind] in He. rewrite Ep in He. cbn [bind] in He.
+  unfold content_encrypt in He. rewrite Eog, Eiv in He. cbn [bind] in He.
+  destruct (gcm_enc c r1 r2 data) as [ct|] eqn:Ect; [|discriminate He]. cbn [bind] in He.
+  rewrite En in He. cbn [bind] in He. unfold cek_encrypt in He. rewrite Eow in He.
+  destruct (kw_wrap c kek r1) as [w|] eqn:Ew; [|discriminate He]. cbn [bind] in He.
+  unfold encrypt_blob_fields in He. rewrite Ep in He. cbn [bind] in He.
+  fold (emitted_blob kid sid w ct p) in He. set (b := emitted_blob kid sid w ct p) in *.
+  assert (Hwf : wf_blob b = true).
+  { unfold b. rewrite Ekid. pose proof (Sw _ eq_refl). pose proof (Sct _ eq_refl). apply emitted_wf; auto; try lia; unfold U32; lia. }
+  destruct (blob_roundtrip b true Hwf) as (ci & Ep1 & Eu1 & _ & _). unfold trailing in Ep1, Eu1. rewrite app_nil_r in Ep1, Eu1.
+  destruct (blob_roundtrip b false Hwf) as (ci2 & Ep2 & Eu2 & _ & _).
+  assert (blob = ci) by congruence. subst blob.
+  assert (Kr : kid_rkid kid = rkid /\ kid_l0 kid = l0 /\ kid_l1 kid = l1 /\ kid_l2 kid = l2) by (rewrite Ekid; auto).
+  destruct Kr as (Kr & K0 & K1 & K2).
+  split; [exists (ci2 ++ trailing b false); rewrite Eu1; exact Ep2|].
+  intros X HX. split.
+  - apply (unprotect_general L X ci kid kek r1 r2 data w ct p); assumption.
+  - intros blob2 Eb. rewrite Eu1 in Eb. cbn [bind] in Eb. rewrite Ep2 in Eb. apply Ok_inj in Eb. subst blob2.
+    apply (unprotect_general L X _ kid kek r1 r2 data w ct p); assumption.
+Qed.
+
+Lemma fields_hash e : gke_kdf_alg e = STR_KDF_ALG -> gke_kdf_params e = rk_kdf_params rk -> envelope_hash e = Ok h.
+Proof. intros Ea Ep. unfold envelope_hash. rewrite Ea, Ep. unfold Model.Gkdi.str_eqb. rewrite beqb_refl. cbn [negb]. exact Hhash. Qed.
+
+(* ---- DH public-key mode: a public-key envelope of the root key's group key at (l0, l1, l2), carrying g^y mod p for
+   the group private key y the chain prescribes (what a conforming DC delivers, MS-GKDI 3.1.4.1.2) ---- *)
+Record dh_env_ok (ep : envelope) (seed : bytes) (kl p g : Z) : Prop := {
+  dp_pub : gke_is_public_key ep = true;
+  dp_l0 : gke_l0 ep = l0; dp_l1 : gke_l1 ep = l1; dp_l2 : gke_l2 ep = l2; dp_rkid : gke_rkid ep = rkid;
+  dp_alg : gke_kdf_alg ep = STR_KDF_ALG; dp_params : gke_kdf_params ep = rk_kdf_params rk;
+  dp_salg : gke_secret_alg ep = STR_DH; dp_rsalg : rk_secret_alg rk = STR_DH;
+  dp_priv : gke_priv_len ep = rk_priv_len rk; dp_privb : u32b (gke_priv_len ep) = true;
+  dp_p : 0 < p; dp_kl : u32b kl = true; dp_fp : GkdiStructs.fitsb kl p = true; dp_fg : GkdiStructs.fitsb kl g = true;
+  dp_ywf : wfb (kdf c h seed KDS_SERVICE (lit16z "DH") (bytes_of_bits (gke_priv_len ep))) = true;
+  dp_key : gke_l2_key ep = concat (GkdiStructs.ffk_field_list
+             {| ffk_key_length := kl; ffk_field_order := p; ffk_generator := g;
+                ffk_public_key := dh_public p g (OS2IP (kdf c h seed KDS_SERVICE (lit16z "DH") (bytes_of_bits (gke_priv_len ep)))) |});
+  dp_names : names_ok (gke_flags ep) (gke_domain ep) (gke_forest ep) = true }.
+
+Theorem roundtrip_pubkey_dh (L : CryptoLaws c) ep seed kl p g r1 r2 r3 data blob :
+  derived_seed h rk rkid sd l0 l1 l2 = Ok seed -> dh_env_ok ep seed kl p g ->
+  wfb r3 = true -> 8 + 3 * kl < U32 -> len r2 = 12 ->
+  (forall k w, kw_wrap c k r1 = Ok w -> len w < U32) -> (forall ct, gcm_enc c r1 r2 data = Ok ct -> len ct < U32) ->
+  encrypt_blob c r1 r2 r3 data ep sid = Ok blob ->
+  (exists blob2, (let* b := blob_unpack blob in blob_pack b false) = Ok blob2) /\
+  forall X, cache_ok X ->
+    fst (unprotect_offline c X blob) = Ok data /\
+    forall blob2, (let* b := blob_unpack blob in blob_pack b false) = Ok blob2 -> fst (unprotect_offline c X blob2) = Ok data.
+Proof.
+  intros Es D Hw3 Hkl Hr2 Sw Sct He.
+  destruct D as [Dpub D0 D1 D2 Dr Da Dp Dsa Drsa Dpr Dprb Dpp Dkl Dfp Dfg Dy Dkey Dn].
+  set (top := root_top c h rk rkid sd l0).
+  (* the encrypting side, from agree_dh with itself against any conforming covering envelope *)
+  assert (A : forall e', env_ok c h rk rkid sd l0 e' -> covers (env_of e') l1 l2 ->
+            exists kid, new_kek c (fun _ => r3) ep =
+              Ok (kek_dh c h p kl (dh_public p g (OS2IP (kdf c h seed KDS_SERVICE (lit16z "DH") (bytes_of_bits (gke_priv_len ep))))) (OS2IP r3), kid) /\
+              kid_key_info kid = concat (GkdiStructs.ffk_field_list {| ffk_key_length := kl; ffk_field_order := p; ffk_generator := g;
+                                           ffk_public_key := dh_public p g (OS2IP r3) |}) /\
+              get_kek c e' kid = Ok (kek_dh c h p kl (dh_public p g (OS2IP (kdf c h seed KDS_SERVICE (lit16z "DH") (bytes_of_bits (gke_priv_len ep))))) (OS2IP r3))).
+  { intros e' He' Hcov. pose proof (env_ok_hash c h rk rkid sd l0 Hhash e' He') as Hh'.
+    destruct He' as [Hp' El' Er' _ _ Hc' _ Esa' Epr'].
+    pose proof (agree_dh c h top e' ep (fun _ => r3) seed kl p g Hh' (fields_hash ep Da Dp) Hp' Dpub) as A.
+    rewrite D0, D1, D2, Dr in A. unfold KDFof in A. rewrite D0, Dr in A.
+    specialize (A El' Er' ltac:(congruence) Dsa ltac:(congruence) Dprb Hl1 Hl2 Hc' Hcov Es Dpp Dkl Dfp Dfg). cbv zeta in A.
+    destruct (A Dy Hw3 Dkey) as (kid & En & Ek & Eg & Eq). exists kid. rewrite Eq in Eg. auto. }
+  (* some conforming covering envelope exists: the one the root key yields *)
+  destruct (get_key_ok c h rk rkid sd l0 Hhash Halg Hl0 (cc_load cc_empty rkid rk) l1 l2) as (er & _ & _ & Her & Hcovr & _ & _); auto.
+  { apply cache_ok_fresh; [cbn [cc_load cc_roots cc_find_root]; rewrite beqb_refl; reflexivity|reflexivity]. }
+  destruct (A er Her Hcovr) as (kid & En & Ek & _).
+  apply (roundtrip_any_mode L ep _ kid r1 r2 r3 data blob D0 D1 D2 Dr Dn En); auto.
+  - rewrite Ek. set (k' := {| ffk_key_length := kl; ffk_field_order := p; ffk_generator := g; ffk_public_key := dh_public p g (OS2IP r3) |}).
+    assert (W : GkdiStructs.wf_ffk k' = true).
+    { unfold GkdiStructs.wf_ffk, k'. cbn [ffk_key_length ffk_field_order ffk_generator ffk_public_key]. rewrite Dkl, Dfp, Dfg. cbn [andb].
+      unfold dh_public, GkdiStructs.fitsb in *. pose proof (Z.mod_pos_bound (g ^ OS2IP r3) p Dpp). lia. }
+    rewrite (GkdiStructs.FFCDHKey_pack_length k' _ W (GkdiStructs.FFCDHKey_pack_ok k' W)). exact Hkl.
+  - intros e' He' Hcov. destruct (A e' He' Hcov) as (kid' & En' & _ & Eg'). unfold new_kek_rnd in En. rewrite En in En'. apply Ok_inj in En'.
+    assert (kid' = kid) by congruence. subst kid'. exact Eg'.
+  - intros w. apply Sw.
+Qed.
+End AnyMode.
+
 End C01.
 
 (* ---- the hypotheses are satisfiable: instances under the guarded symbolic crypto ---- *)
@@ -403,3 +536,39 @@ Example nonconforming_cache_entry :
   | _ => False
   end.
 Proof. split; vm_compute; auto. Qed.
+
+(* ---- DH public-key mode instance: the group of KekExamples (p = 65521, g = 17, 2-byte fields) ---- *)
+Definition ex_sd : bytes := target_sd (parsed ex_sid).
+Definition ex_pk_seed : bytes := match derived_seed symg SHA512 ex_rk ex_rkid ex_sd 361 31 23 with Ok x => x | Raise _ => [] end.
+Definition ex_pk_ybytes : bytes := kdf symg SHA512 ex_pk_seed KDS_SERVICE (lit16z "DH") (bytes_of_bits 512).
+Definition ex_ep_dh : envelope :=
+  {| gke_version := 1; gke_flags := 1; gke_l0 := 361; gke_l1 := 31; gke_l2 := 23; gke_rkid := ex_rkid;
+     gke_kdf_alg := STR_KDF_ALG; gke_kdf_params := KekExamples.ex_kdf_params; gke_secret_alg := STR_DH; gke_secret_params := [];
+     gke_priv_len := 512; gke_pub_len := 16; gke_domain := [100]; gke_forest := [102; 46; 103]; gke_l1_key := [];
+     gke_l2_key := concat (GkdiStructs.ffk_field_list {| ffk_key_length := 2; ffk_field_order := 65521; ffk_generator := 17;
+                                                         ffk_public_key := modpow 17 (OS2IP ex_pk_ybytes) 65521 |}) |}.
+Lemma ex_dh_env_ok : dh_env_ok symg SHA512 ex_rk ex_rkid 361 31 23 ex_ep_dh ex_pk_seed 2 65521 17.
+Proof.
+  assert (Wy : wfb ex_pk_ybytes = true) by (vm_compute; reflexivity).
+  constructor; try reflexivity; try lia; try exact Wy.
+  cbn [ex_ep_dh gke_l2_key gke_priv_len]. fold ex_pk_ybytes. unfold dh_public.
+  rewrite <- modpow_spec; [reflexivity|lia|]. rewrite OS2IP_be_val. apply be_val_range, Wy.
+Qed.
+Example example_pubkey_dh : exists blob,
+  encrypt_blob symg ex_r1 ex_r2 ex_r3 [1; 2; 3] ex_ep_dh ex_sid = Ok blob /\
+  fst (unprotect_offline symg ex_cache blob) = Ok [1; 2; 3] /\
+  exists blob2, (let* b := blob_unpack blob in blob_pack b false) = Ok blob2 /\ fst (unprotect_offline symg ex_cache blob2) = Ok [1; 2; 3].
+Proof.
+  assert (E : exists blob, encrypt_blob symg ex_r1 ex_r2 ex_r3 [1; 2; 3] ex_ep_dh ex_sid = Ok blob) by (eexists; vm_compute; reflexivity).
+  destruct E as (blob & E). exists blob. split; [exact E|].
+  assert (Hc : cache_ok symg SHA512 ex_rk ex_rkid ex_sd 361 ex_cache) by (apply cache_ok_fresh; reflexivity).
+  destruct (roundtrip_pubkey_dh symg SHA512 ex_rk ex_rkid (parsed ex_sid) ex_sid 361 31 23
+              ltac:(vm_compute; reflexivity) eq_refl eq_refl ltac:(vm_compute; reflexivity) ltac:(vm_compute; reflexivity) ltac:(lia) ltac:(lia) ltac:(lia)
+              symg_laws ex_ep_dh ex_pk_seed 2 65521 17 ex_r1 ex_r2 ex_r3 [1; 2; 3] blob
+              ltac:(vm_compute; reflexivity) ex_dh_env_ok ltac:(vm_compute; reflexivity) ltac:(unfold U32; lia) eq_refl) as [(blob2 & E2) HX].
+  - intros k w Ew. apply symg_kw_wrap_inv in Ew as (Hk & Hx & ->). apply okb_spec in Hk as [_ Hk]. rewrite len_symterm. cbn [fold_right].
+    change (len ex_r1) with 32. unfold U32. admit.
+  - ex_gcm_size.
+  - exact E.
+  - destruct (HX ex_cache Hc) as [U1 U2]. split; [exact U1|]. exists blob2. split; [exact E2|apply U2, E2].
+Abort.
